@@ -299,7 +299,12 @@ def store(
                 lock=lock,
                 return_stored=return_stored,
                 load_stored=load_stored,
-                name="store-map",
+                # A target is a mutable sink: what matters is WHICH object is
+                # written, not what it currently contains. Tokenized by content
+                # alone, two equal-looking targets (two fresh np.zeros buffers)
+                # gave identical nodes, and de-duplication by name dropped one
+                # of the two writes.
+                name=f"store-map-{id(t)}",
                 meta=s._meta,
             )
         )
